@@ -187,3 +187,144 @@ Example C15_example_tiers :
   preferIncomingScore 1 0 7 = 7 /\ preferIncomingScore 0 2 0 = 2147483647 /\
   preferIncomingScore 0 0 0 = 18446744073709551615 /\ leastPendingScore 0 1 4 = 4.
 Proof. vm_compute. repeat split; auto. Qed.
+
+(* ==== what selection is FED with: the request's previously-selected set and the peer's load ====
+   Gen/GenPeerSel.v is regenerated from retry.go (getHost, RequestState.AddSelectedPeer,
+   RequestState.PrevSelectedPeers), peer.go (Peer.NumConnections, Peer.NumPendingOutbound) and
+   mex.go (messageExchangeSet.count) on every run, loops included; a map[string]struct{} is a
+   nilable set of strings (Base/GoSemColl.v).  Proofs: Proofs/GenPeerSelP.v, Proofs/ReqSelP.v. *)
+From Verif Require Import Base.GoSemColl Gen.GenPeerSel Model.ReqSel Proofs.GenPeerSelP Proofs.ReqSelP.
+
+(* the generated getHost never panics and is the specification's host function, for every string:
+   the bytes before the LAST ':' (so "[::1]:80" has host "[::1]"), the whole string if there is none *)
+Theorem C15_gethost_generated : forall hp, getHost hp = Some (host_of hp).
+Proof. exact getHost_host_of. Qed.
+Print Assumptions C15_gethost_generated.
+
+(* after attempts that selected p1..pk (any strings, any k) the generated AddSelectedPeer has not
+   panicked, PrevSelectedPeers hands selection the very map, and that map holds every pi AND
+   every host(pi) -- and nothing else; it is non-nil as soon as one peer was added *)
+Theorem C15_selected_set_complete : forall ps, exists rs,
+  add_all fresh_request ps = Some rs /\
+  RequestState_PrevSelectedPeers rs = Some (RequestState_SelectedPeers rs) /\
+  (forall p, In p ps -> sset_mem (RequestState_SelectedPeers rs) p = true /\
+                        sset_mem (RequestState_SelectedPeers rs) (host_of p) = true) /\
+  (forall s, sset_mem (RequestState_SelectedPeers rs) s = true ->
+             exists p, In p ps /\ (s = p \/ s = host_of p)) /\
+  (ps <> [] -> sset_isnil (RequestState_SelectedPeers rs) = false).
+Proof. exact selected_set_complete. Qed.
+Print Assumptions C15_selected_set_complete.
+
+(* the attempts of one request (Get(rs.PrevSelectedPeers()) then rs.AddSelectedPeer(peer), both
+   generated), starting from any reachable list, with ANY history on the list between two
+   attempts: no attempt panics, and attempt k+1 returns a least-loaded peer of the strictest
+   non-empty tier with respect to everything attempts 1..k tried (peers and their hosts) *)
+Theorem C15_retry_least_loaded_untried : forall ops l atts, lrun pl_empty ops = Some l ->
+  exists log rsf, req_run l fresh_request atts = Some (log, rsf) /\
+    forall k lk p, nth_error log k = Some (lk, p) ->
+      let T := tried_set (map snd (firstn k log)) in
+      least_loaded (eligible_get T (pl_keys lk)) (map (fun x => (ps_hp x, ps_score x)) (pl_arr lk)) p.
+Proof. exact retry_least_loaded_untried. Qed.
+Print Assumptions C15_retry_least_loaded_untried.
+
+(* the same in plain terms: the peer is a member; while a member on a host that no earlier attempt
+   touched exists the attempt gets such a member; while an untried member exists it gets one *)
+Theorem C15_retry_avoids_tried_hosts : forall ops l atts, lrun pl_empty ops = Some l ->
+  exists log rsf, req_run l fresh_request atts = Some (log, rsf) /\
+    forall k lk p, nth_error log k = Some (lk, p) ->
+      let T := tried_set (map snd (firstn k log)) in
+      In p (pl_keys lk) /\
+      ((exists q, In q (pl_keys lk) /\ ~ In q T /\ ~ In (host_of q) T) -> ~ In p T /\ ~ In (host_of p) T) /\
+      ((exists q, In q (pl_keys lk) /\ ~ In q T) -> ~ In p T).
+Proof. exact retry_avoids_tried_hosts. Qed.
+Print Assumptions C15_retry_avoids_tried_hosts.
+
+(* the generated NumPendingOutbound is the number of OUR calls in flight to the peer: the sizes of
+   the OUTBOUND exchange sets summed over the outbound AND the inbound connections (a call we make
+   over a connection the peer dialled counts; calls the peer makes to us never do);
+   NumConnections = (inbound, outbound) list lengths *)
+Theorem C15_pending_counts_our_calls : forall p, pending_calls (peerconns_of p) < 2 ^ 63 ->
+  Peer_NumPendingOutbound p =
+    Some (zsum (map (fun c => zlen (messageExchangeSet_exchanges (Connection_outbound c)))
+                    (Peer_outboundConnections p ++ Peer_inboundConnections p))) /\
+  Peer_NumConnections p = Some (zlen (Peer_inboundConnections p), zlen (Peer_outboundConnections p)).
+Proof. exact pending_counts_our_calls. Qed.
+Print Assumptions C15_pending_counts_our_calls.
+
+(* GetScore of the built-in strategies on a peer = the model's score (Model/PeerList.v [calc]) of
+   the load (inbound, outbound, pending_calls) that Model/ReqSel.v reads off the connections *)
+Theorem C15_score_of_connections : forall strat p, 0 <= strat <= 2 ->
+  pending_calls (peerconns_of p) < 2 ^ 63 ->
+  gen_score strat p = Some (calc strat (attrs_of (peerconns_of p) 0 0)).
+Proof. exact gen_score_model. Qed.
+Print Assumptions C15_score_of_connections.
+
+(* hence the default strategy ranks two peers by (tier, our pending calls) whatever connections
+   carry the calls *)
+Theorem C15_default_rank_of_connections : forall p1 p2 s1 s2,
+  let c1 := peerconns_of p1 in let c2 := peerconns_of p2 in
+  zlen (pc_inbound c1) + zlen (pc_outbound c1) < 2 ^ 63 -> pending_calls c1 < 2 ^ 31 - 1 ->
+  zlen (pc_inbound c2) + zlen (pc_outbound c2) < 2 ^ 63 -> pending_calls c2 < 2 ^ 31 - 1 ->
+  gen_score 0 p1 = Some s1 -> gen_score 0 p2 = Some s2 ->
+  (s1 < s2 <-> rank_lt (default_rank (zlen (pc_inbound c1)) (zlen (pc_outbound c1)) (pending_calls c1))
+                       (default_rank (zlen (pc_inbound c2)) (zlen (pc_outbound c2)) (pending_calls c2))).
+Proof. exact default_rank_of_connections. Qed.
+Print Assumptions C15_default_rank_of_connections.
+
+(* ---- non-vacuity ---- *)
+(* four peers a:1 a:2 b:1 c:1 with scores 0 0 5 9: a request's three attempts get a:1 (or a:2), then
+   b:1 (host a tried), then c:1 (hosts a, b tried) although a:2 has the lowest score throughout;
+   a fourth attempt falls back to the untried a-peer *)
+Example C15_example_retry :
+  let a1 := [97; 58; 49] in let a2 := [97; 58; 50] in let b1 := [98; 58; 49] in let c1 := [99; 58; 49] in
+  let ops := [LAdd a1 0 0 0; LAdd a2 0 0 0; LAdd b1 5 0 0; LAdd c1 9 0 0] in
+  match lrun pl_empty ops with
+  | Some l =>
+      match req_run l fresh_request [mkAtt [] 0; mkAtt [] 0; mkAtt [] 0; mkAtt [] 0] with
+      | Some (log, rs) =>
+          match map snd log with
+          | [p1; p2; p3; p4] => (p1 = a1 \/ p1 = a2) /\ p2 = b1 /\ p3 = c1 /\ (p4 = a1 \/ p4 = a2) /\ p4 <> p1
+          | _ => False
+          end /\
+          sset_len (RequestState_SelectedPeers rs) = 7
+      | None => False
+      end
+  | None => False
+  end.
+Proof. vm_compute. repeat split; auto; discriminate. Qed.
+
+(* the host function: no colon => the whole string; empty host; a bracketed IPv6 literal is the
+   host of its host:port; several colons => cut at the last one *)
+Example C15_example_gethost :
+  getHost [110; 48] = Some [110; 48] /\ getHost [58; 49] = Some [] /\
+  getHost [91; 58; 58; 49; 93; 58; 56; 48] = Some [91; 58; 58; 49; 93] /\
+  getHost [97; 58; 49; 58; 50] = Some [97; 58; 49].
+Proof. vm_compute. repeat split. Qed.
+
+(* IPv6 peers [::1]:1 [::1]:2 [::2]:1 with scores 0 0 9: the second attempt of a request leaves the
+   host [::1] (score 0 sibling available) for [::2]:1; the third falls back to the untried sibling *)
+Example C15_example_retry_ipv6 :
+  let x1 := [91; 58; 58; 49; 93; 58; 49] in let x2 := [91; 58; 58; 49; 93; 58; 50] in
+  let y1 := [91; 58; 58; 50; 93; 58; 49] in
+  match lrun pl_empty [LAdd x1 0 0 0; LAdd x2 0 0 0; LAdd y1 9 0 0] with
+  | Some l =>
+      match req_run l fresh_request [mkAtt [] 0; mkAtt [] 0; mkAtt [] 0] with
+      | Some (log, _) =>
+          match map snd log with
+          | [p1; p2; p3] => (p1 = x1 \/ p1 = x2) /\ p2 = y1 /\ (p3 = x1 \/ p3 = x2) /\ p3 <> p1
+          | _ => False
+          end
+      | None => False
+      end
+  | None => False
+  end.
+Proof. vm_compute. repeat split; auto; discriminate. Qed.
+
+(* a peer that dialled us (one inbound connection) carrying 2 of our calls and 3 of its own, and
+   one idle outbound connection: 2 pending, default score 2 (top tier) *)
+Example C15_example_load :
+  let mex := mk_messageExchange 0 in
+  let es n := mk_messageExchangeSet (map (fun i => (Z.of_nat i, mex)) (seq 0 n)) in
+  let p := mk_Peer [mk_Connection (es 3%nat) (es 2%nat)] [mk_Connection (es 0%nat) (es 0%nat)] in
+  Peer_NumPendingOutbound p = Some 2 /\ Peer_NumConnections p = Some (1, 1) /\ gen_score 0 p = Some 2.
+Proof. vm_compute. repeat split. Qed.
